@@ -36,6 +36,28 @@ def _finite(func, kind, text, ok, detail=""):
             "model": None if ok else {"detail": detail}}
 
 
+def rule_state_obligations(world):
+    """Validating twice gives the same answer only if a rule keeps no state between runs: every
+    specified rule class (and its bases inside the library) must not define mutable class-level
+    containers - instances are created per validation, class attributes are not.  Finite, over the
+    classes of the current tree."""
+    from graphql.validation import specified_rules
+    from graphql.validation.specified_rules import specified_sdl_rules
+    out = []
+    seen = set()
+    for rule in tuple(specified_rules) + tuple(specified_sdl_rules):
+        for k in rule.__mro__:
+            if k in seen or not k.__module__.startswith("graphql."):
+                continue
+            seen.add(k)
+            bad = sorted(n for n, v in vars(k).items()
+                         if isinstance(v, (list, dict, set, bytearray)) and not n.startswith("__"))
+            out.append(_finite(f"{k.__module__}.{k.__name__}", "FRAME",
+                               "no mutable class-level container (state would survive a validation)",
+                               not bad, ", ".join(bad)))
+    return out
+
+
 def extra_obligations(world, tier, seed):
     out = []
     mod, tree, _ = world.load_module("graphql.validation.validate")
@@ -46,6 +68,7 @@ def extra_obligations(world, tier, seed):
     out.append(_finite("graphql.validation.validate", "FINITE",
                        "query_document_keys_to_validate == QUERY_DOCUMENT_KEYS minus 'description' (every kind)",
                        ok))
+    out += rule_state_obligations(world)
     fn = world.find_def(tree, "validate")
     visit_calls = [n for n in ast.walk(fn) if isinstance(n, ast.Call)
                    and isinstance(n.func, ast.Name) and n.func.id == "visit"]
